@@ -106,7 +106,7 @@ impl FeatureFromStrTrait {
                             type Err = ();
 
                             fn from_str(s: &str) -> ::core::result::Result<Self, Self::Err> {
-                                use ::core::iter::Iterator;
+                                use ::core::iter::Iterator as _;
                                 use ::core::result::Result::{Ok, Err};
                                 for (i, n) in Self::#ident_table_name.iter().enumerate() {
                                     if s == *n {
@@ -124,7 +124,7 @@ impl FeatureFromStrTrait {
                             type Err = ();
 
                             fn from_str(s: &str) -> ::core::result::Result<Self, Self::Err> {
-                                use ::core::iter::Iterator;
+                                use ::core::iter::Iterator as _;
                                 use ::core::result::Result::{Ok, Err};
                                 for (e, n) in Self::#ident_table_enum.iter().zip(Self::#ident_table_name.iter()) {
                                     if s == *n {
